@@ -103,7 +103,7 @@ int __wrap_gettimeofday(struct timeval *tv, void *tz)
 static uint64_t g_ent_state[VSIM_MAX_NODES];
 static uint64_t g_ent_draws, g_ent_bytes, g_ent_fired, g_ent_seq;
 static int64_t g_ent_fault_at = -1; static int g_ent_fault_kind, g_ent_fault_count;
-#define DRAW_RING 64
+#define DRAW_RING 1024
 static vsim_draw_t g_draws[DRAW_RING];
 
 void vsim_entropy_arm(void) { g_ent_draws = 0; }
@@ -358,7 +358,7 @@ static void fill_pt(vsim_probe_t *p, const unsigned char *pt, uint32_t len)
     memset(p->pt_head, 0, sizeof p->pt_head); memset(p->pt_tail, 0, sizeof p->pt_tail);
     if (pt)
     {
-        memcpy(p->pt_head, pt, len < 8 ? len : 8);
+        memcpy(p->pt_head, pt, len < 16 ? len : 16);
         if (len >= 4) { memcpy(p->pt_tail, pt + len - 4, 4); } else { memcpy(p->pt_tail + 4 - len, pt, len); }
     }
 }
